@@ -20,6 +20,17 @@ func identWithKey(r *core.Rand, key *rm.SigKey, cryptos []int) (rm.KAC, gen.Shap
 	return k, sh
 }
 
+// signedTweak, when set, is applied to the model (a *rm.RouterInfo, *rm.LeaseSet, *rm.LeaseSet2,
+// *rm.MetaLeaseSet or *rm.EncryptedLeaseSet) just before it is signed: the result is a correctly
+// signed structure with whatever unusual content the tweak gave it. Set and cleared by the caller.
+var signedTweak func(model any)
+
+func applyTweak(model any) {
+	if signedTweak != nil {
+		signedTweak(model)
+	}
+}
+
 type signedCase struct {
 	kind  string
 	bytes []byte
@@ -37,6 +48,7 @@ func signedRouterInfo(r *core.Rand, sigType int) signedCase {
 	ri.Ident, _ = identWithKey(r, key, rm.IdentCryptoTypes)
 	s, c := ri.Ident.Types()
 	sh["sig"], sh["crypto"] = s, c
+	applyTweak(&ri)
 	ri.Sig, _ = key.Sign(ri.EncodeUnsigned(), r)
 	return signedCase{kind: "rinfo", bytes: ri.Encode(), shape: sh, identKey: key, destSigType: sigType}
 }
@@ -52,6 +64,7 @@ func signedLeaseSet(r *core.Rand, sigType int) signedCase {
 	if sigType == 0 {
 		gen.DSAInRange(l.SigningKey)
 	}
+	applyTweak(&l)
 	l.Sig, _ = key.Sign(l.EncodeUnsigned(), r)
 	return signedCase{kind: "leaseset", bytes: l.Encode(), shape: sh, identKey: key, destSigType: sigType}
 }
@@ -91,6 +104,7 @@ func signedLeaseSet2With(r *core.Rand, sigType int, offline bool, transientType 
 		l.Flags |= 1
 	}
 	sh["offline"], sh["transient"] = offline, transientType
+	applyTweak(&l)
 	msg := append([]byte{rm.StoreLeaseSet2}, l.EncodeUnsigned()...)
 	l.Sig, _ = signer.Sign(msg, r)
 	return signedCase{kind: "leaseset2", bytes: l.Encode(), shape: sh, identKey: key, transient: tk, destSigType: sigType}
@@ -122,6 +136,7 @@ func signedMetaWith(r *core.Rand, sigType int, offline bool, transientType int, 
 		l.Flags |= 1
 	}
 	sh["offline"], sh["transient"] = offline, transientType
+	applyTweak(&l)
 	msg := append([]byte{rm.StoreMetaLeaseSet}, l.EncodeUnsigned()...)
 	l.Sig, _ = signer.Sign(msg, r)
 	return signedCase{kind: "metaleaseset", bytes: l.Encode(), shape: sh, identKey: key, transient: tk, destSigType: sigType}
@@ -152,6 +167,7 @@ func signedELSWith(r *core.Rand, sigType int, offline bool, transientType int, f
 		l.Flags |= 1
 	}
 	sh["sig"], sh["offline"], sh["transient"] = sigType, offline, transientType
+	applyTweak(&l)
 	msg := append([]byte{rm.StoreEncryptedLS}, l.EncodeUnsigned()...)
 	l.Sig, _ = signer.Sign(msg, r)
 	return signedCase{kind: "encleaseset", bytes: l.Encode(), shape: sh, identKey: key, transient: tk, destSigType: sigType}
